@@ -176,6 +176,15 @@ func newScratch(keep bool) *scratch {
 		s.cleanup()
 		fatal2("generating client/mainlib failed: %v", err)
 	}
+	// a tuning knob simulated histories are too small to reach: the snapshot loader hands records to the goroutine
+	// filling the maps in packs of 65536 through a ring of 6 buffers; with packs of 16 the ring wraps in a set of
+	// a few hundred records (nothing else changes; left alone if the constant is not found as written)
+	if src, err := os.ReadFile(filepath.Join(s.repo, "lib/utxo/unspent_db.go")); err == nil {
+		const was, now = "const RECS_PACK_SIZE = 0x10000", "const RECS_PACK_SIZE = 16"
+		if strings.Count(string(src), was) == 1 {
+			os.WriteFile(filepath.Join(s.repo, "lib/utxo/unspent_db.go"), []byte(strings.Replace(string(src), was, now, 1)), 0644)
+		}
+	}
 	var dirs []string
 	for _, p := range instrPkgs {
 		if st, err := os.Stat(filepath.Join(s.repo, p)); err == nil && st.IsDir() {
